@@ -48,6 +48,7 @@ def gen_txns(rnd):
         cat, sub = rnd.choice(CATS)
         base = rnd.sample(TAGS, rnd.randint(0, 2))
         special = [rnd.choice(SPECIAL)] if rnd.random() < .15 else []
+        late_special, with_info = rnd.random() < .5, rnd.random() < .5
         style = rnd.choice(['monthly', 'random', 'burst', 'single', 'yearedge'] + (['leap'] if 2024 in years else []))
         n = {'monthly': rnd.randint(3, 20), 'random': rnd.randint(1, 25), 'burst': rnd.randint(2, 10), 'single': 1, 'leap': rnd.randint(2, 5),
              'yearedge': rnd.randint(2, 6)}[style]
@@ -72,10 +73,22 @@ def gen_txns(rnd):
                 d = datetime(2024, 2, rnd.choice([29, 29, 15, 28]))
             amt = round(rnd.choice([1, 1, 1, 1, -1]) * rnd.choice([5, 9.99, 25, 100, 250.5, 1200, 33.33, 50]), 2)
             tags = list(base) + special + (['extra'] if rnd.random() < .1 else [])
-            txns.append({'date': d, 'raw_description': name.upper(), 'description': name, 'amount': amt, 'merchant': name, 'category': cat,
-                         'subcategory': sub, 'source': 's', 'tags': tags})
-    rnd.shuffle(txns)
-    return txns
+            if special and late_special and k == 0 and n > 1:
+                tags = list(base)            # the special tag comes from a rule that only SOME payments match (here: not the first one)
+            t = {'date': d, 'raw_description': name.upper(), 'description': name, 'amount': amt, 'merchant': name, 'category': cat,
+                 'subcategory': sub, 'source': 's', 'tags': tags}
+            if with_info:
+                t['match_info'] = {'pattern': 'contains("%s")' % name.upper(), 'source': 'user', 'tags': list(tags), 'tag_sources': {}}   # as the readers attach it
+            txns.append(t)
+    # (no shuffle of a merchant's own first payment: list order is statement order, and the first payment is the one whose match_info the merchant keeps)
+    first = {}
+    for t in txns:
+        first.setdefault(t['merchant'], t)
+    rest = [t for t in txns if first[t['merchant']] is not t]
+    rnd.shuffle(rest)
+    heads = list(first.values())
+    rnd.shuffle(heads)
+    return heads + rest
 
 
 # ------------------------------------------------------------------------------------------------ reference
@@ -260,7 +273,7 @@ NUMS = ['months', 'total', 'cv', 'count(payments)', 'sum(payments)', 'avg(paymen
         'max(sum(by("month")))', 'avg(sum(by("month")))', 'max(count(by("day")))', 'max(count(by("week")))', 'count(sum(by("year")))',
         'min(avg(by("month")))', 'max(stddev(by("month")))', 'abs(total)', 'total / months', 'max_val(months, 3)', 'total % 7', 'count(by("day"))',
         'count(by("week"))', 'max(sum(by("day")))', 'sum(count(by("year")))', 'round(cv, 1)', 'min_val(total, 500)', 'period("month")',
-        'months / period("month")', 'period("year")', 'count(by("MONTH"))', 'thr', 'per_month', 'lim']
+        'months / period("month")', 'period("year")', 'count(by("MONTH"))', 'thr', 'per_month', 'lim', 'peak', 'visits']
 BAD_FILTERS = ['sum(by("month")) > 100', 'category > 5', 'payments > 3', 'nosuchvar > 1', 'by("fortnight") == 1', 'max_val(1) > 0', '"x" in months',
                'stddev(category) > 1', 'total + category > 1', 'period("decade") > 1', 'undefined_local > 0']
 
@@ -291,7 +304,8 @@ def gfilter(rnd, d=2):
     return '%s < %s <= %s' % (rnd.choice(['0', '1', '10']), num(), rnd.choice(['100', '1000', '12']))
 
 
-GLOBALS = [('thr', '100'), ('is_freq', 'months >= 3'), ('per_month', 'total / months'), ('lim', 'max_val(2, period("month") * 0.5)')]
+GLOBALS = [('thr', '100'), ('is_freq', 'months >= 3'), ('per_month', 'total / months'), ('lim', 'max_val(2, period("month") * 0.5)'),
+           ('peak', 'max(sum(by("month")))'), ('visits', 'sum(count(by("day")))')]     # no primitive name in them: only aggregates over by()
 
 
 def gen_views(rnd):
